@@ -8,7 +8,7 @@
    event stream.  The c24_any_* theorems say the same for an arbitrary interleaving of "absorb one input event" and
    "publish one crumb", of which the real loop is one instance (so they do not depend on how the queue is batched). *)
 From Coq Require Import List NArith Arith Bool.
-From Verif.C24 Require Import Model Spec Proofs ProofsSorted ProofsInv ProofsRun ProofsClient ProofsMain ProofsTop.
+From Verif.C24 Require Import Model Spec Proofs ProofsSorted ProofsInv ProofsRun ProofsClient ProofsMain ProofsTop ProofsOracle.
 Import ListNotations.
 
 (* The snapshot messages carry exactly the entries of the crumb's tree, in key order, for every message size. *)
@@ -83,6 +83,17 @@ Proof.
   - exact (main_converged maxb os maxm i gs ci H).
 Qed.
 Print Assumptions c24_any_interleaving.
+
+(* The model meets the specification oracle: the boolean oracle that the correspondence run evaluates on the
+   IMPLEMENTATION's callback streams accepts every callback stream of the model in which the client has read
+   everything (every input, every MaxBatchSize, join point, message size and batching). *)
+Theorem c24_model_meets_spec : forall maxb pushes maxm i gs ci,
+  let ch := chain (run maxb pushes) in
+  nth_error ch i = Some ci ->
+  length (skipn (S i) ch) <= list_sum gs ->
+  ok_client (concat pushes) (client_run maxm ch i gs) = true.
+Proof. exact model_meets_spec. Qed.
+Print Assumptions c24_model_meets_spec.
 
 (* Non-vacuity: a run with a no-op update, a delete, a split batch (MaxBatchSize 2), InSync declared before the last
    updates; a client joining at crumb 2 whose delta loop coalesces two crumbs. *)
